@@ -1245,6 +1245,48 @@ def shallow_hashable_test_rule(ctx, rid: str, pid: str, floor: int = 0):
                            'when hashed - equality, hash and repr round trips of the owner then raise', m.rel, c.lineno)
     return n
 
+def aggregate_stride_rule(ctx, rid: str, pid: str, floor: int = 0):
+    """A per-item result is cut apart with a stride computed from an aggregate over all items."""
+    repo = ctx.repo
+    from ..flow import name_deps
+    ctx.rule(rid, 'a batch is cut apart with its own stride: inside `for item, ... in zip(ITEMS, ...)` / `for item in ITEMS`, a slice of `item` whose bounds use a name that is not assigned in '
+             'the loop body but was computed, before the loop, from ITEMS as a whole (a total or an average over all batches) - batches of different sizes are then split at the wrong '
+             'places and results go to a neighbouring program', floor=floor, style='TNT')
+    n = 0
+    for m, ci, fn in _functions(repo, pid):
+        for l in ast.walk(fn):
+            if not isinstance(l, ast.For):
+                continue
+            it_ = l.iter
+            srcs = []
+            if isinstance(it_, ast.Call) and isinstance(it_.func, ast.Name) and it_.func.id in ('zip', 'enumerate') and it_.args:
+                srcs = [a for a in it_.args if isinstance(a, ast.Name)]
+                tg = l.target.elts if isinstance(l.target, ast.Tuple) else [l.target]
+                if it_.func.id == 'enumerate':
+                    tg = tg[1:]
+            elif isinstance(it_, ast.Name):
+                srcs = [it_]
+                tg = [l.target]
+            else:
+                continue
+            pairs = [(t.id, s_.id) for t, s_ in zip(tg, srcs) if isinstance(t, ast.Name)] if not (isinstance(it_, ast.Call) and it_.func.id == 'zip') else \
+                [(t.id, a.id) for t, a in zip(tg, it_.args) if isinstance(t, ast.Name) and isinstance(a, ast.Name)]
+            if not pairs:
+                continue
+            assigned_in = {t.id for st in l.body for x in ast.walk(st) for t in ast.walk(x) if isinstance(t, ast.Name) and isinstance(t.ctx, ast.Store)}
+            for item, coll in pairs:
+                dep = None
+                for sub in [x for st in l.body for x in ast.walk(st) if isinstance(x, ast.Subscript) and isinstance(x.value, ast.Name) and x.value.id == item and isinstance(x.slice, ast.Slice)]:
+                    names = {y.id for b in (sub.slice.lower, sub.slice.upper) if b is not None for y in ast.walk(b) if isinstance(y, ast.Name)} - assigned_in - {item}
+                    if dep is None:
+                        dep = name_deps(fn, {coll: {'<ALL>'}})
+                    n += 1
+                    bad = sorted(k for k in names if '<ALL>' in dep.get(k, set()) and k != coll)
+                    ctx.ob(rid, f'{m.name}.{(ci.name + ".") if ci else ""}{fn.name}:{item}[{ast.unparse(sub.slice)[:30]}]', not bad, '' if not bad else
+                           f'`{ast.unparse(sub)[:60]}` cuts one element of `{coll}` with `{bad[0]}`, which is computed once from `{coll}` as a whole and not in the loop: elements of '
+                           'different length are split at the wrong places', m.rel, sub.lineno)
+    return n
+
 FLOORS = {   # (z_fwd, z_drop, z_pair): about two thirds of the instances confirmed on the tree the rules were armed on
     'C01': (7, 40, 11),
     'C02': (4, 55, 8),
@@ -1288,11 +1330,12 @@ def apply(ctx, pid: str, only=None):
         'z_stale': lambda: stale_read_rule(ctx, f'{pid}.z_stale', pid, floor=0),
         'z_mask': lambda: partial_mask_zip_rule(ctx, f'{pid}.z_mask', pid, floor=0),
         'z_hash': lambda: shallow_hashable_test_rule(ctx, f'{pid}.z_hash', pid, floor=0),
+        'z_stride': lambda: aggregate_stride_rule(ctx, f'{pid}.z_stride', pid, floor=0),
     }
     out = {}
     for k, f in rules.items():
         if only is None or k in only:
             out[k] = f()
     ctx.decided.append(f'{pid}.z_* general rules on the functions attributed to this property: sibling calls forward the same parameters (z_fwd), a wrapper does not swallow an option its '
-                       'callee accepts (z_drop), positional pairing only over ordered collections (z_pair), presence of a key is not tested by truthiness of the value (z_get), constructors do not mutate their arguments (z_ctor), optional option bags are inputs only (z_opt), generators are consumed once (z_gen), a lazily memoised field is dropped wherever its source fields are reassigned (z_memo), x[0] / x[-1] only where the function\'s own emptiness test protects it (z_first), a back-mapping built in a nested loop does not drop owners (z_inv), a qubit coordinate becomes a position only after a sign check (z_coord), call sites of one `T | None` function agree that absent means None (z_none), a one-shot iterable parameter is not consumed per loop iteration (z_loop), a read-modify-write of X[b] does not straddle a store to X[a] when a and b may coincide (z_stale), a raw partial invert_mask is not paired with the qubits position by position (z_mask), hashability of element data is decided by hash(), not by isinstance(x, Hashable) (z_hash)')
+                       'callee accepts (z_drop), positional pairing only over ordered collections (z_pair), presence of a key is not tested by truthiness of the value (z_get), constructors do not mutate their arguments (z_ctor), optional option bags are inputs only (z_opt), generators are consumed once (z_gen), a lazily memoised field is dropped wherever its source fields are reassigned (z_memo), x[0] / x[-1] only where the function\'s own emptiness test protects it (z_first), a back-mapping built in a nested loop does not drop owners (z_inv), a qubit coordinate becomes a position only after a sign check (z_coord), call sites of one `T | None` function agree that absent means None (z_none), a one-shot iterable parameter is not consumed per loop iteration (z_loop), a read-modify-write of X[b] does not straddle a store to X[a] when a and b may coincide (z_stale), a raw partial invert_mask is not paired with the qubits position by position (z_mask), hashability of element data is decided by hash(), not by isinstance(x, Hashable) (z_hash), one element of a collection is not sliced with a stride computed from the whole collection (z_stride)')
     return out
